@@ -97,7 +97,13 @@ func Add(rows ...*Indicator) {
 				return direct(c)
 			}
 			c.Via = false
+			used := c.Used
+			c.Used = false
 			d, src := direct(ind.Default), direct(c)
+			if used {
+				// first a series through the DEFAULT configuration, then the re-tuning
+				firstUse(d, len(ind.In))
+			}
 			if !assignExported(d.Obj, src.Obj) {
 				return src
 			}
@@ -108,6 +114,9 @@ func Add(rows ...*Indicator) {
 			return d
 		}
 		ind.New = func(c Cfg) Inst {
+			if c.Via {
+				return build(c) // (a first use, if asked for, happens before the re-tuning)
+			}
 			used := c.Used
 			c.Used = false
 			inst := build(c)
